@@ -1,7 +1,7 @@
 (** Small abstract vocabulary the image-level theorems are stated against (no reference to the operations
     [from_sequence_img] / [split_img] themselves). *)
 From Coq Require Import List Bool Arith ZArith QArith Qabs Lia.
-From DV Require Import Common.Res Ext.Seq Orient.Model Wrapper.Model.
+From DV Require Import Common.Res Ext.Types Ext.Seq Orient.Model Wrapper.Model.
 Import ListNotations.
 Local Open Scope nat_scope.
 
@@ -60,7 +60,24 @@ Definition mergeable (unitv : vec -> vec) (dim : nat) (ims : list img) (d : img)
   (dim < 3 -> forall i, S i < length ims ->
               bad_step unitv dim (iaff (nth i ims d)) (iaff (nth (S i) ims d)) = false).
 
+(** every entry is a reduced fraction (the canonical representation: what a float literal is printed as) *)
+Definition reduced (A : mat) : Prop := Forall (Forall (fun q => Qred q = q)) A.
+
 (** the shape has no trailing singleton dimension beyond the third that a split along [dim] would drop
     for good (or [dim] is that last axis) *)
 Definition no_trailing_one (sh : list nat) (dim : nat) : Prop :=
   length sh <= 3 \/ last sh 0 <> 1 \/ dim = length sh - 1.
+
+(* ------------------------------------------------------------------------------------------ wrapper level *)
+
+(** the extension records the shape, slice dim and affine of the image it is attached to *)
+Definition consistent {V} (w : wrapper V) : Prop :=
+  shape (hdr_of (snd w)) = ishape (fst w) /\ sdim (hdr_of (snd w)) = islice (fst w) /\
+  aff (hdr_of (snd w)) = iaff (fst w).
+
+(** index (Python ints) of the source voxel in input [i] of a merge / in the parent of a split *)
+Definition merge_src_z (sh : list nat) (dim : nat) (ix : list Z) : list Z :=
+  firstn (length sh) (set_nth dim 0%Z ix).
+Definition piece_src_z (ndim dim i : nat) (ix : list Z) : list Z :=
+  set_nth dim (Z.of_nat i) (ix ++ repeat 0%Z (ndim - length ix)).
+
